@@ -25,7 +25,7 @@ Definition fl_close (a b : fl) : bool := list_eqb f_close9 a b.
 
 (* tables of the case *)
 Record tables := mkTables {
-  t_num : list (string * (option float * option Z * option Z));
+  t_num : list (string * (option float * option Z * option Z * option Z));
   t_tr : list (Z * fl);
   t_norm : list (fl * res fl);
   t_nf : list (string * string);
@@ -36,9 +36,10 @@ Record tables := mkTables {
 
 Definition env_of (t : tables) : env (T:=float) :=
   mkEnv
-    (fun s => match assoc String.eqb s (t_num t) with Some (f, _, _) => f | None => None end)
-    (fun s => match assoc String.eqb s (t_num t) with Some (_, z, _) => z | None => None end)
-    (fun s => match assoc String.eqb s (t_num t) with Some (_, _, z) => z | None => None end)
+    (fun s => match assoc String.eqb s (t_num t) with Some (f, _, _, _) => f | None => None end)
+    (fun s => match assoc String.eqb s (t_num t) with Some (_, z, _, _) => z | None => None end)
+    (fun s => match assoc String.eqb s (t_num t) with Some (_, _, z, _) => z | None => None end)
+    (fun s => match assoc String.eqb s (t_num t) with Some (_, _, _, z) => z | None => None end)
     (fun n => assoc Z.eqb n (t_tr t))
     (fun v => match assoc fl_close v (t_norm t) with Some r => r | None => Err ENoTable end)
     (fun s => match assoc String.eqb s (t_nf t) with Some r => r | None => "?no-table" end)
